@@ -15,7 +15,8 @@ RULE = ("read()/write() calls of 1-40 requests mixing VALID requests (judged as 
         "last/all/alternating/random), with sizes that spread the requests over several multi-service packets, fragmented transfers and "
         "bit-write groups, on every controller configuration; oracle: arity/shape (single Tag iff n=1), i-th Tag answers the i-th request "
         "(name, value), invalid -> falsy Tag with non-empty error and no exception, valid requests unaffected (values / memory), "
-        "bool(Tag) == (value is not None and error is None); the request values handed to write() (incl. over-long lists) are unchanged after the call. A separate robustness census of undocumented shapes is tabulated, never judged. "
+        "bool(Tag) == (value is not None and error is None); per project one read and one write of 2-6 tags whose Multiple Service Packet the controller refuses as a whole "
+        "(one falsy Tag with an error per request, no exception); the request values handed to write() (incl. over-long lists) are unchanged after the call. A separate robustness census of undocumented shapes is tabulated, never judged. "
         "distinct = (op, n, invalid class, position class, config, packets used) evaluated")
 ASSUMPTIONS = [
     "request shapes the documentation leaves undefined (bit of a REAL, {0}, {n} or index on a scalar, negative index, whitespace, bit >= width) are outside the judged calls",
@@ -297,6 +298,35 @@ def run(ctx):
                             res.violation("result-type", f"read result {i} type {t.type!r} != {it.type_string()!r}", w2)
                 if pi == 0 and ci < 3:
                     res.sample({"op": op, "config": sc.label, "requests": wit["requests"][:5], "results": [repr(t)[:90] for t in outs[:5]], "connected_messages": packets})
+            # ---- "controller error status" for the packet that carries the requests: a controller may refuse a Multiple Service Packet as a
+            # whole (too busy, reply would not fit, service not supported in this state).  Then none of its requests can succeed: one
+            # falsy Tag with a non-empty error per request, in order, and no exception.
+            if not sc.micro:
+                smalls = [t for t in prj.user_tags() if t.dtype.kind == "atomic" and not t.dims and t.kind == "user" and t.dtype.name != "BOOL"]
+                if len(smalls) >= 2:
+                    for for_write_ in (False, True):
+                        picked_ = rng.sample(smalls, min(len(smalls), rng.choice([2, 3, 6])))
+                        stt_ = rng.choice([0x02, 0x08, 0x11, 0x05, 0x1F, 0x0C])
+                        dev.force_status = lambda rq, s=stt_: (s, (), b"") if rq.service == 0x0A and not getattr(rq, "embedded", False) else None
+                        if for_write_:
+                            st, out = sc.b.call("write", sc.drv.write, *[(t.full_name, 1) for t in picked_])
+                        else:
+                            st, out = sc.b.call("read", sc.drv.read, *[t.full_name for t in picked_])
+                        dev.force_status = None
+                        dev.finish_transfers()
+                        sc.b.log.violations.clear()
+                        res.ev()
+                        op_ = "write" if for_write_ else "read"
+                        res.seen("whole-packet-refused", op_, len(picked_), stt_)
+                        if st != "ok":
+                            res.violation(f"{op_}-raises:{type(out).__name__}:packet-refused", f"{op_}() of {len(picked_)} tags whose Multiple Service Packet the controller refused with {stt_:#x} raised {out!r:.200} ({sc.label})", None)
+                        elif not isinstance(out, list) or len(out) != len(picked_):
+                            res.violation("shape-list", f"{op_}() of {len(picked_)} tags (packet refused with {stt_:#x}) returned {out!r:.160}", None)
+                        else:
+                            for t_, tag_ in zip(picked_, out):
+                                if tag_ or not isinstance(tag_.error, str) or not tag_.error.strip() or tag_.tag != t_.full_name:
+                                    res.violation("packet-refused:request-not-failed-in-place", f"{op_}() of {[x.full_name for x in picked_]!r:.120} with the packet refused ({stt_:#x}): result for {t_.full_name!r} is {tag_!r:.160}", None)
+                                    break
             # ---- robustness census (tabulated, never judged) --------------------------------------------------------------------
             if pi % 3 == 0:
                 t0 = rng.choice(prj.user_tags())
